@@ -201,7 +201,7 @@ pub fn strategy(menu: gen::ConfigMenu, max_segs: usize) -> BoxedStrategy<StreamC
 fn wide_menu() -> gen::ConfigMenu {
     // rows long enough to exceed the capacities need wide windows
     let mut m = gen::ConfigMenu::all_transports();
-    m.window = gen::WindowSize::Mixed;
+    m.window = gen::WindowSize::Wide;
     m.pin_cap = 130;
     m
 }
